@@ -13,6 +13,11 @@
          m3 = m2 > 25);
       3: resource-like: one memo over (refetch counter, signal 0 halved), tracked by hand,
          the fetcher reads it untracked; optionally created with an initial value.
+    [once] makes the node a leptos_server once-resource (one future, no sources; its task is the
+    tail of the same loop); [rf_tracks] (shape 0) lets the fetcher track the refetch counter, as
+    LocalResource does. Awaiters are polled by hand with a fresh waker each time; awaiters created
+    under a Suspense boundary register it with the node ([susp_reg]), and the load that starts
+    next holds one task of the boundary per registration until its future completes ([susp_held]).
     [hidden] / [own_only] / [drop_stale] select the repaired code (all [true]) or the code
     before "fix: async derived values check their sources without being the observer …"
     ([hidden = false]), before "fix: only an async derived value's own task consumes its
@@ -35,12 +40,16 @@ Record cfg := mkCfg {
   hidden : bool;
   own_only : bool;
   drop_stale : bool;
+  rf_tracks : bool;       (* shape 0 only: the fetcher also tracks the refetch counter (LocalResource) *)
+  once : bool;            (* a once-resource: one future, no sources; [shape] is 0 *)
   fetchf : Z * Z -> Z     (* the fetcher, applied to the inputs read when the future is created *)
 }.
 
 Record fut := mkFut { f_res : Z; f_done : bool; f_alive : bool }.
 Inductive tstate := TIdle | TFetch (f : nat) (v : nat).
-Inductive astate := APending (wakes : nat) | ADone (v : Z) | APanic.
+(** an awaiter polled by hand: every poll brings a fresh waker (generation [gen]); [wakes] counts
+    the invocations of the latest one *)
+Inductive astate := APending (gen : nat) (wakes : nat) | ADone (v : Z) | APanic.
 
 Record node := mkN {
   sigs : list Z;
@@ -54,7 +63,7 @@ Record node := mkN {
   version : nat;
   value : option Z;
   loading : bool;
-  wakers : list nat;
+  wakers : list (nat * nat);
   task : tstate;
   init_fut : option nat;
   first_run : bool;
@@ -71,66 +80,75 @@ Record node := mkN {
   dlog : list (option Z);
   awaiters : list astate;
   legit : list Z;
-  notified : nat
+  notified : nat;
+  aw_sus : list bool;
+  susp_reg : nat;
+  susp_held : nat
 }.
 Definition set_sigs (x : list Z) (s : node) : node :=
-  mkN x (refetch_n s) (seen s) (st_dirty s) (flag s) (woken s) (rx_reg s) (polled s) (version s) (value s) (loading s) (wakers s) (task s) (init_fut s) (first_run s) (futs s) (manual s) (cap s) (d_set s) (d_dirty s) (d_first s) (d_woken s) (d_reg s) (d_sub s) (d_seen s) (dlog s) (awaiters s) (legit s) (notified s).
+  mkN x (refetch_n s) (seen s) (st_dirty s) (flag s) (woken s) (rx_reg s) (polled s) (version s) (value s) (loading s) (wakers s) (task s) (init_fut s) (first_run s) (futs s) (manual s) (cap s) (d_set s) (d_dirty s) (d_first s) (d_woken s) (d_reg s) (d_sub s) (d_seen s) (dlog s) (awaiters s) (legit s) (notified s) (aw_sus s) (susp_reg s) (susp_held s).
 Definition set_refetch_n (x : Z) (s : node) : node :=
-  mkN (sigs s) x (seen s) (st_dirty s) (flag s) (woken s) (rx_reg s) (polled s) (version s) (value s) (loading s) (wakers s) (task s) (init_fut s) (first_run s) (futs s) (manual s) (cap s) (d_set s) (d_dirty s) (d_first s) (d_woken s) (d_reg s) (d_sub s) (d_seen s) (dlog s) (awaiters s) (legit s) (notified s).
+  mkN (sigs s) x (seen s) (st_dirty s) (flag s) (woken s) (rx_reg s) (polled s) (version s) (value s) (loading s) (wakers s) (task s) (init_fut s) (first_run s) (futs s) (manual s) (cap s) (d_set s) (d_dirty s) (d_first s) (d_woken s) (d_reg s) (d_sub s) (d_seen s) (dlog s) (awaiters s) (legit s) (notified s) (aw_sus s) (susp_reg s) (susp_held s).
 Definition set_seen (x : list Z) (s : node) : node :=
-  mkN (sigs s) (refetch_n s) x (st_dirty s) (flag s) (woken s) (rx_reg s) (polled s) (version s) (value s) (loading s) (wakers s) (task s) (init_fut s) (first_run s) (futs s) (manual s) (cap s) (d_set s) (d_dirty s) (d_first s) (d_woken s) (d_reg s) (d_sub s) (d_seen s) (dlog s) (awaiters s) (legit s) (notified s).
+  mkN (sigs s) (refetch_n s) x (st_dirty s) (flag s) (woken s) (rx_reg s) (polled s) (version s) (value s) (loading s) (wakers s) (task s) (init_fut s) (first_run s) (futs s) (manual s) (cap s) (d_set s) (d_dirty s) (d_first s) (d_woken s) (d_reg s) (d_sub s) (d_seen s) (dlog s) (awaiters s) (legit s) (notified s) (aw_sus s) (susp_reg s) (susp_held s).
 Definition set_st_dirty (x : bool) (s : node) : node :=
-  mkN (sigs s) (refetch_n s) (seen s) x (flag s) (woken s) (rx_reg s) (polled s) (version s) (value s) (loading s) (wakers s) (task s) (init_fut s) (first_run s) (futs s) (manual s) (cap s) (d_set s) (d_dirty s) (d_first s) (d_woken s) (d_reg s) (d_sub s) (d_seen s) (dlog s) (awaiters s) (legit s) (notified s).
+  mkN (sigs s) (refetch_n s) (seen s) x (flag s) (woken s) (rx_reg s) (polled s) (version s) (value s) (loading s) (wakers s) (task s) (init_fut s) (first_run s) (futs s) (manual s) (cap s) (d_set s) (d_dirty s) (d_first s) (d_woken s) (d_reg s) (d_sub s) (d_seen s) (dlog s) (awaiters s) (legit s) (notified s) (aw_sus s) (susp_reg s) (susp_held s).
 Definition set_flag (x : bool) (s : node) : node :=
-  mkN (sigs s) (refetch_n s) (seen s) (st_dirty s) x (woken s) (rx_reg s) (polled s) (version s) (value s) (loading s) (wakers s) (task s) (init_fut s) (first_run s) (futs s) (manual s) (cap s) (d_set s) (d_dirty s) (d_first s) (d_woken s) (d_reg s) (d_sub s) (d_seen s) (dlog s) (awaiters s) (legit s) (notified s).
+  mkN (sigs s) (refetch_n s) (seen s) (st_dirty s) x (woken s) (rx_reg s) (polled s) (version s) (value s) (loading s) (wakers s) (task s) (init_fut s) (first_run s) (futs s) (manual s) (cap s) (d_set s) (d_dirty s) (d_first s) (d_woken s) (d_reg s) (d_sub s) (d_seen s) (dlog s) (awaiters s) (legit s) (notified s) (aw_sus s) (susp_reg s) (susp_held s).
 Definition set_woken (x : bool) (s : node) : node :=
-  mkN (sigs s) (refetch_n s) (seen s) (st_dirty s) (flag s) x (rx_reg s) (polled s) (version s) (value s) (loading s) (wakers s) (task s) (init_fut s) (first_run s) (futs s) (manual s) (cap s) (d_set s) (d_dirty s) (d_first s) (d_woken s) (d_reg s) (d_sub s) (d_seen s) (dlog s) (awaiters s) (legit s) (notified s).
+  mkN (sigs s) (refetch_n s) (seen s) (st_dirty s) (flag s) x (rx_reg s) (polled s) (version s) (value s) (loading s) (wakers s) (task s) (init_fut s) (first_run s) (futs s) (manual s) (cap s) (d_set s) (d_dirty s) (d_first s) (d_woken s) (d_reg s) (d_sub s) (d_seen s) (dlog s) (awaiters s) (legit s) (notified s) (aw_sus s) (susp_reg s) (susp_held s).
 Definition set_rx_reg (x : bool) (s : node) : node :=
-  mkN (sigs s) (refetch_n s) (seen s) (st_dirty s) (flag s) (woken s) x (polled s) (version s) (value s) (loading s) (wakers s) (task s) (init_fut s) (first_run s) (futs s) (manual s) (cap s) (d_set s) (d_dirty s) (d_first s) (d_woken s) (d_reg s) (d_sub s) (d_seen s) (dlog s) (awaiters s) (legit s) (notified s).
+  mkN (sigs s) (refetch_n s) (seen s) (st_dirty s) (flag s) (woken s) x (polled s) (version s) (value s) (loading s) (wakers s) (task s) (init_fut s) (first_run s) (futs s) (manual s) (cap s) (d_set s) (d_dirty s) (d_first s) (d_woken s) (d_reg s) (d_sub s) (d_seen s) (dlog s) (awaiters s) (legit s) (notified s) (aw_sus s) (susp_reg s) (susp_held s).
 Definition set_polled (x : bool) (s : node) : node :=
-  mkN (sigs s) (refetch_n s) (seen s) (st_dirty s) (flag s) (woken s) (rx_reg s) x (version s) (value s) (loading s) (wakers s) (task s) (init_fut s) (first_run s) (futs s) (manual s) (cap s) (d_set s) (d_dirty s) (d_first s) (d_woken s) (d_reg s) (d_sub s) (d_seen s) (dlog s) (awaiters s) (legit s) (notified s).
+  mkN (sigs s) (refetch_n s) (seen s) (st_dirty s) (flag s) (woken s) (rx_reg s) x (version s) (value s) (loading s) (wakers s) (task s) (init_fut s) (first_run s) (futs s) (manual s) (cap s) (d_set s) (d_dirty s) (d_first s) (d_woken s) (d_reg s) (d_sub s) (d_seen s) (dlog s) (awaiters s) (legit s) (notified s) (aw_sus s) (susp_reg s) (susp_held s).
 Definition set_version (x : nat) (s : node) : node :=
-  mkN (sigs s) (refetch_n s) (seen s) (st_dirty s) (flag s) (woken s) (rx_reg s) (polled s) x (value s) (loading s) (wakers s) (task s) (init_fut s) (first_run s) (futs s) (manual s) (cap s) (d_set s) (d_dirty s) (d_first s) (d_woken s) (d_reg s) (d_sub s) (d_seen s) (dlog s) (awaiters s) (legit s) (notified s).
+  mkN (sigs s) (refetch_n s) (seen s) (st_dirty s) (flag s) (woken s) (rx_reg s) (polled s) x (value s) (loading s) (wakers s) (task s) (init_fut s) (first_run s) (futs s) (manual s) (cap s) (d_set s) (d_dirty s) (d_first s) (d_woken s) (d_reg s) (d_sub s) (d_seen s) (dlog s) (awaiters s) (legit s) (notified s) (aw_sus s) (susp_reg s) (susp_held s).
 Definition set_value (x : option Z) (s : node) : node :=
-  mkN (sigs s) (refetch_n s) (seen s) (st_dirty s) (flag s) (woken s) (rx_reg s) (polled s) (version s) x (loading s) (wakers s) (task s) (init_fut s) (first_run s) (futs s) (manual s) (cap s) (d_set s) (d_dirty s) (d_first s) (d_woken s) (d_reg s) (d_sub s) (d_seen s) (dlog s) (awaiters s) (legit s) (notified s).
+  mkN (sigs s) (refetch_n s) (seen s) (st_dirty s) (flag s) (woken s) (rx_reg s) (polled s) (version s) x (loading s) (wakers s) (task s) (init_fut s) (first_run s) (futs s) (manual s) (cap s) (d_set s) (d_dirty s) (d_first s) (d_woken s) (d_reg s) (d_sub s) (d_seen s) (dlog s) (awaiters s) (legit s) (notified s) (aw_sus s) (susp_reg s) (susp_held s).
 Definition set_loading (x : bool) (s : node) : node :=
-  mkN (sigs s) (refetch_n s) (seen s) (st_dirty s) (flag s) (woken s) (rx_reg s) (polled s) (version s) (value s) x (wakers s) (task s) (init_fut s) (first_run s) (futs s) (manual s) (cap s) (d_set s) (d_dirty s) (d_first s) (d_woken s) (d_reg s) (d_sub s) (d_seen s) (dlog s) (awaiters s) (legit s) (notified s).
-Definition set_wakers (x : list nat) (s : node) : node :=
-  mkN (sigs s) (refetch_n s) (seen s) (st_dirty s) (flag s) (woken s) (rx_reg s) (polled s) (version s) (value s) (loading s) x (task s) (init_fut s) (first_run s) (futs s) (manual s) (cap s) (d_set s) (d_dirty s) (d_first s) (d_woken s) (d_reg s) (d_sub s) (d_seen s) (dlog s) (awaiters s) (legit s) (notified s).
+  mkN (sigs s) (refetch_n s) (seen s) (st_dirty s) (flag s) (woken s) (rx_reg s) (polled s) (version s) (value s) x (wakers s) (task s) (init_fut s) (first_run s) (futs s) (manual s) (cap s) (d_set s) (d_dirty s) (d_first s) (d_woken s) (d_reg s) (d_sub s) (d_seen s) (dlog s) (awaiters s) (legit s) (notified s) (aw_sus s) (susp_reg s) (susp_held s).
+Definition set_wakers (x : list (nat * nat)) (s : node) : node :=
+  mkN (sigs s) (refetch_n s) (seen s) (st_dirty s) (flag s) (woken s) (rx_reg s) (polled s) (version s) (value s) (loading s) x (task s) (init_fut s) (first_run s) (futs s) (manual s) (cap s) (d_set s) (d_dirty s) (d_first s) (d_woken s) (d_reg s) (d_sub s) (d_seen s) (dlog s) (awaiters s) (legit s) (notified s) (aw_sus s) (susp_reg s) (susp_held s).
 Definition set_task (x : tstate) (s : node) : node :=
-  mkN (sigs s) (refetch_n s) (seen s) (st_dirty s) (flag s) (woken s) (rx_reg s) (polled s) (version s) (value s) (loading s) (wakers s) x (init_fut s) (first_run s) (futs s) (manual s) (cap s) (d_set s) (d_dirty s) (d_first s) (d_woken s) (d_reg s) (d_sub s) (d_seen s) (dlog s) (awaiters s) (legit s) (notified s).
+  mkN (sigs s) (refetch_n s) (seen s) (st_dirty s) (flag s) (woken s) (rx_reg s) (polled s) (version s) (value s) (loading s) (wakers s) x (init_fut s) (first_run s) (futs s) (manual s) (cap s) (d_set s) (d_dirty s) (d_first s) (d_woken s) (d_reg s) (d_sub s) (d_seen s) (dlog s) (awaiters s) (legit s) (notified s) (aw_sus s) (susp_reg s) (susp_held s).
 Definition set_init_fut (x : option nat) (s : node) : node :=
-  mkN (sigs s) (refetch_n s) (seen s) (st_dirty s) (flag s) (woken s) (rx_reg s) (polled s) (version s) (value s) (loading s) (wakers s) (task s) x (first_run s) (futs s) (manual s) (cap s) (d_set s) (d_dirty s) (d_first s) (d_woken s) (d_reg s) (d_sub s) (d_seen s) (dlog s) (awaiters s) (legit s) (notified s).
+  mkN (sigs s) (refetch_n s) (seen s) (st_dirty s) (flag s) (woken s) (rx_reg s) (polled s) (version s) (value s) (loading s) (wakers s) (task s) x (first_run s) (futs s) (manual s) (cap s) (d_set s) (d_dirty s) (d_first s) (d_woken s) (d_reg s) (d_sub s) (d_seen s) (dlog s) (awaiters s) (legit s) (notified s) (aw_sus s) (susp_reg s) (susp_held s).
 Definition set_first_run (x : bool) (s : node) : node :=
-  mkN (sigs s) (refetch_n s) (seen s) (st_dirty s) (flag s) (woken s) (rx_reg s) (polled s) (version s) (value s) (loading s) (wakers s) (task s) (init_fut s) x (futs s) (manual s) (cap s) (d_set s) (d_dirty s) (d_first s) (d_woken s) (d_reg s) (d_sub s) (d_seen s) (dlog s) (awaiters s) (legit s) (notified s).
+  mkN (sigs s) (refetch_n s) (seen s) (st_dirty s) (flag s) (woken s) (rx_reg s) (polled s) (version s) (value s) (loading s) (wakers s) (task s) (init_fut s) x (futs s) (manual s) (cap s) (d_set s) (d_dirty s) (d_first s) (d_woken s) (d_reg s) (d_sub s) (d_seen s) (dlog s) (awaiters s) (legit s) (notified s) (aw_sus s) (susp_reg s) (susp_held s).
 Definition set_futs (x : list fut) (s : node) : node :=
-  mkN (sigs s) (refetch_n s) (seen s) (st_dirty s) (flag s) (woken s) (rx_reg s) (polled s) (version s) (value s) (loading s) (wakers s) (task s) (init_fut s) (first_run s) x (manual s) (cap s) (d_set s) (d_dirty s) (d_first s) (d_woken s) (d_reg s) (d_sub s) (d_seen s) (dlog s) (awaiters s) (legit s) (notified s).
+  mkN (sigs s) (refetch_n s) (seen s) (st_dirty s) (flag s) (woken s) (rx_reg s) (polled s) (version s) (value s) (loading s) (wakers s) (task s) (init_fut s) (first_run s) x (manual s) (cap s) (d_set s) (d_dirty s) (d_first s) (d_woken s) (d_reg s) (d_sub s) (d_seen s) (dlog s) (awaiters s) (legit s) (notified s) (aw_sus s) (susp_reg s) (susp_held s).
 Definition set_manual (x : bool) (s : node) : node :=
-  mkN (sigs s) (refetch_n s) (seen s) (st_dirty s) (flag s) (woken s) (rx_reg s) (polled s) (version s) (value s) (loading s) (wakers s) (task s) (init_fut s) (first_run s) (futs s) x (cap s) (d_set s) (d_dirty s) (d_first s) (d_woken s) (d_reg s) (d_sub s) (d_seen s) (dlog s) (awaiters s) (legit s) (notified s).
+  mkN (sigs s) (refetch_n s) (seen s) (st_dirty s) (flag s) (woken s) (rx_reg s) (polled s) (version s) (value s) (loading s) (wakers s) (task s) (init_fut s) (first_run s) (futs s) x (cap s) (d_set s) (d_dirty s) (d_first s) (d_woken s) (d_reg s) (d_sub s) (d_seen s) (dlog s) (awaiters s) (legit s) (notified s) (aw_sus s) (susp_reg s) (susp_held s).
 Definition set_cap (x : Z * Z) (s : node) : node :=
-  mkN (sigs s) (refetch_n s) (seen s) (st_dirty s) (flag s) (woken s) (rx_reg s) (polled s) (version s) (value s) (loading s) (wakers s) (task s) (init_fut s) (first_run s) (futs s) (manual s) x (d_set s) (d_dirty s) (d_first s) (d_woken s) (d_reg s) (d_sub s) (d_seen s) (dlog s) (awaiters s) (legit s) (notified s).
+  mkN (sigs s) (refetch_n s) (seen s) (st_dirty s) (flag s) (woken s) (rx_reg s) (polled s) (version s) (value s) (loading s) (wakers s) (task s) (init_fut s) (first_run s) (futs s) (manual s) x (d_set s) (d_dirty s) (d_first s) (d_woken s) (d_reg s) (d_sub s) (d_seen s) (dlog s) (awaiters s) (legit s) (notified s) (aw_sus s) (susp_reg s) (susp_held s).
 Definition set_d_set (x : bool) (s : node) : node :=
-  mkN (sigs s) (refetch_n s) (seen s) (st_dirty s) (flag s) (woken s) (rx_reg s) (polled s) (version s) (value s) (loading s) (wakers s) (task s) (init_fut s) (first_run s) (futs s) (manual s) (cap s) x (d_dirty s) (d_first s) (d_woken s) (d_reg s) (d_sub s) (d_seen s) (dlog s) (awaiters s) (legit s) (notified s).
+  mkN (sigs s) (refetch_n s) (seen s) (st_dirty s) (flag s) (woken s) (rx_reg s) (polled s) (version s) (value s) (loading s) (wakers s) (task s) (init_fut s) (first_run s) (futs s) (manual s) (cap s) x (d_dirty s) (d_first s) (d_woken s) (d_reg s) (d_sub s) (d_seen s) (dlog s) (awaiters s) (legit s) (notified s) (aw_sus s) (susp_reg s) (susp_held s).
 Definition set_d_dirty (x : bool) (s : node) : node :=
-  mkN (sigs s) (refetch_n s) (seen s) (st_dirty s) (flag s) (woken s) (rx_reg s) (polled s) (version s) (value s) (loading s) (wakers s) (task s) (init_fut s) (first_run s) (futs s) (manual s) (cap s) (d_set s) x (d_first s) (d_woken s) (d_reg s) (d_sub s) (d_seen s) (dlog s) (awaiters s) (legit s) (notified s).
+  mkN (sigs s) (refetch_n s) (seen s) (st_dirty s) (flag s) (woken s) (rx_reg s) (polled s) (version s) (value s) (loading s) (wakers s) (task s) (init_fut s) (first_run s) (futs s) (manual s) (cap s) (d_set s) x (d_first s) (d_woken s) (d_reg s) (d_sub s) (d_seen s) (dlog s) (awaiters s) (legit s) (notified s) (aw_sus s) (susp_reg s) (susp_held s).
 Definition set_d_first (x : bool) (s : node) : node :=
-  mkN (sigs s) (refetch_n s) (seen s) (st_dirty s) (flag s) (woken s) (rx_reg s) (polled s) (version s) (value s) (loading s) (wakers s) (task s) (init_fut s) (first_run s) (futs s) (manual s) (cap s) (d_set s) (d_dirty s) x (d_woken s) (d_reg s) (d_sub s) (d_seen s) (dlog s) (awaiters s) (legit s) (notified s).
+  mkN (sigs s) (refetch_n s) (seen s) (st_dirty s) (flag s) (woken s) (rx_reg s) (polled s) (version s) (value s) (loading s) (wakers s) (task s) (init_fut s) (first_run s) (futs s) (manual s) (cap s) (d_set s) (d_dirty s) x (d_woken s) (d_reg s) (d_sub s) (d_seen s) (dlog s) (awaiters s) (legit s) (notified s) (aw_sus s) (susp_reg s) (susp_held s).
 Definition set_d_woken (x : bool) (s : node) : node :=
-  mkN (sigs s) (refetch_n s) (seen s) (st_dirty s) (flag s) (woken s) (rx_reg s) (polled s) (version s) (value s) (loading s) (wakers s) (task s) (init_fut s) (first_run s) (futs s) (manual s) (cap s) (d_set s) (d_dirty s) (d_first s) x (d_reg s) (d_sub s) (d_seen s) (dlog s) (awaiters s) (legit s) (notified s).
+  mkN (sigs s) (refetch_n s) (seen s) (st_dirty s) (flag s) (woken s) (rx_reg s) (polled s) (version s) (value s) (loading s) (wakers s) (task s) (init_fut s) (first_run s) (futs s) (manual s) (cap s) (d_set s) (d_dirty s) (d_first s) x (d_reg s) (d_sub s) (d_seen s) (dlog s) (awaiters s) (legit s) (notified s) (aw_sus s) (susp_reg s) (susp_held s).
 Definition set_d_reg (x : bool) (s : node) : node :=
-  mkN (sigs s) (refetch_n s) (seen s) (st_dirty s) (flag s) (woken s) (rx_reg s) (polled s) (version s) (value s) (loading s) (wakers s) (task s) (init_fut s) (first_run s) (futs s) (manual s) (cap s) (d_set s) (d_dirty s) (d_first s) (d_woken s) x (d_sub s) (d_seen s) (dlog s) (awaiters s) (legit s) (notified s).
+  mkN (sigs s) (refetch_n s) (seen s) (st_dirty s) (flag s) (woken s) (rx_reg s) (polled s) (version s) (value s) (loading s) (wakers s) (task s) (init_fut s) (first_run s) (futs s) (manual s) (cap s) (d_set s) (d_dirty s) (d_first s) (d_woken s) x (d_sub s) (d_seen s) (dlog s) (awaiters s) (legit s) (notified s) (aw_sus s) (susp_reg s) (susp_held s).
 Definition set_d_sub (x : bool) (s : node) : node :=
-  mkN (sigs s) (refetch_n s) (seen s) (st_dirty s) (flag s) (woken s) (rx_reg s) (polled s) (version s) (value s) (loading s) (wakers s) (task s) (init_fut s) (first_run s) (futs s) (manual s) (cap s) (d_set s) (d_dirty s) (d_first s) (d_woken s) (d_reg s) x (d_seen s) (dlog s) (awaiters s) (legit s) (notified s).
+  mkN (sigs s) (refetch_n s) (seen s) (st_dirty s) (flag s) (woken s) (rx_reg s) (polled s) (version s) (value s) (loading s) (wakers s) (task s) (init_fut s) (first_run s) (futs s) (manual s) (cap s) (d_set s) (d_dirty s) (d_first s) (d_woken s) (d_reg s) x (d_seen s) (dlog s) (awaiters s) (legit s) (notified s) (aw_sus s) (susp_reg s) (susp_held s).
 Definition set_d_seen (x : Z) (s : node) : node :=
-  mkN (sigs s) (refetch_n s) (seen s) (st_dirty s) (flag s) (woken s) (rx_reg s) (polled s) (version s) (value s) (loading s) (wakers s) (task s) (init_fut s) (first_run s) (futs s) (manual s) (cap s) (d_set s) (d_dirty s) (d_first s) (d_woken s) (d_reg s) (d_sub s) x (dlog s) (awaiters s) (legit s) (notified s).
+  mkN (sigs s) (refetch_n s) (seen s) (st_dirty s) (flag s) (woken s) (rx_reg s) (polled s) (version s) (value s) (loading s) (wakers s) (task s) (init_fut s) (first_run s) (futs s) (manual s) (cap s) (d_set s) (d_dirty s) (d_first s) (d_woken s) (d_reg s) (d_sub s) x (dlog s) (awaiters s) (legit s) (notified s) (aw_sus s) (susp_reg s) (susp_held s).
 Definition set_dlog (x : list (option Z)) (s : node) : node :=
-  mkN (sigs s) (refetch_n s) (seen s) (st_dirty s) (flag s) (woken s) (rx_reg s) (polled s) (version s) (value s) (loading s) (wakers s) (task s) (init_fut s) (first_run s) (futs s) (manual s) (cap s) (d_set s) (d_dirty s) (d_first s) (d_woken s) (d_reg s) (d_sub s) (d_seen s) x (awaiters s) (legit s) (notified s).
+  mkN (sigs s) (refetch_n s) (seen s) (st_dirty s) (flag s) (woken s) (rx_reg s) (polled s) (version s) (value s) (loading s) (wakers s) (task s) (init_fut s) (first_run s) (futs s) (manual s) (cap s) (d_set s) (d_dirty s) (d_first s) (d_woken s) (d_reg s) (d_sub s) (d_seen s) x (awaiters s) (legit s) (notified s) (aw_sus s) (susp_reg s) (susp_held s).
 Definition set_awaiters (x : list astate) (s : node) : node :=
-  mkN (sigs s) (refetch_n s) (seen s) (st_dirty s) (flag s) (woken s) (rx_reg s) (polled s) (version s) (value s) (loading s) (wakers s) (task s) (init_fut s) (first_run s) (futs s) (manual s) (cap s) (d_set s) (d_dirty s) (d_first s) (d_woken s) (d_reg s) (d_sub s) (d_seen s) (dlog s) x (legit s) (notified s).
+  mkN (sigs s) (refetch_n s) (seen s) (st_dirty s) (flag s) (woken s) (rx_reg s) (polled s) (version s) (value s) (loading s) (wakers s) (task s) (init_fut s) (first_run s) (futs s) (manual s) (cap s) (d_set s) (d_dirty s) (d_first s) (d_woken s) (d_reg s) (d_sub s) (d_seen s) (dlog s) x (legit s) (notified s) (aw_sus s) (susp_reg s) (susp_held s).
 Definition set_legit (x : list Z) (s : node) : node :=
-  mkN (sigs s) (refetch_n s) (seen s) (st_dirty s) (flag s) (woken s) (rx_reg s) (polled s) (version s) (value s) (loading s) (wakers s) (task s) (init_fut s) (first_run s) (futs s) (manual s) (cap s) (d_set s) (d_dirty s) (d_first s) (d_woken s) (d_reg s) (d_sub s) (d_seen s) (dlog s) (awaiters s) x (notified s).
+  mkN (sigs s) (refetch_n s) (seen s) (st_dirty s) (flag s) (woken s) (rx_reg s) (polled s) (version s) (value s) (loading s) (wakers s) (task s) (init_fut s) (first_run s) (futs s) (manual s) (cap s) (d_set s) (d_dirty s) (d_first s) (d_woken s) (d_reg s) (d_sub s) (d_seen s) (dlog s) (awaiters s) x (notified s) (aw_sus s) (susp_reg s) (susp_held s).
 Definition set_notified (x : nat) (s : node) : node :=
-  mkN (sigs s) (refetch_n s) (seen s) (st_dirty s) (flag s) (woken s) (rx_reg s) (polled s) (version s) (value s) (loading s) (wakers s) (task s) (init_fut s) (first_run s) (futs s) (manual s) (cap s) (d_set s) (d_dirty s) (d_first s) (d_woken s) (d_reg s) (d_sub s) (d_seen s) (dlog s) (awaiters s) (legit s) x.
+  mkN (sigs s) (refetch_n s) (seen s) (st_dirty s) (flag s) (woken s) (rx_reg s) (polled s) (version s) (value s) (loading s) (wakers s) (task s) (init_fut s) (first_run s) (futs s) (manual s) (cap s) (d_set s) (d_dirty s) (d_first s) (d_woken s) (d_reg s) (d_sub s) (d_seen s) (dlog s) (awaiters s) (legit s) x (aw_sus s) (susp_reg s) (susp_held s).
+Definition set_aw_sus (x : list bool) (s : node) : node :=
+  mkN (sigs s) (refetch_n s) (seen s) (st_dirty s) (flag s) (woken s) (rx_reg s) (polled s) (version s) (value s) (loading s) (wakers s) (task s) (init_fut s) (first_run s) (futs s) (manual s) (cap s) (d_set s) (d_dirty s) (d_first s) (d_woken s) (d_reg s) (d_sub s) (d_seen s) (dlog s) (awaiters s) (legit s) (notified s) x (susp_reg s) (susp_held s).
+Definition set_susp_reg (x : nat) (s : node) : node :=
+  mkN (sigs s) (refetch_n s) (seen s) (st_dirty s) (flag s) (woken s) (rx_reg s) (polled s) (version s) (value s) (loading s) (wakers s) (task s) (init_fut s) (first_run s) (futs s) (manual s) (cap s) (d_set s) (d_dirty s) (d_first s) (d_woken s) (d_reg s) (d_sub s) (d_seen s) (dlog s) (awaiters s) (legit s) (notified s) (aw_sus s) x (susp_held s).
+Definition set_susp_held (x : nat) (s : node) : node :=
+  mkN (sigs s) (refetch_n s) (seen s) (st_dirty s) (flag s) (woken s) (rx_reg s) (polled s) (version s) (value s) (loading s) (wakers s) (task s) (init_fut s) (first_run s) (futs s) (manual s) (cap s) (d_set s) (d_dirty s) (d_first s) (d_woken s) (d_reg s) (d_sub s) (d_seen s) (dlog s) (awaiters s) (legit s) (notified s) (aw_sus s) (susp_reg s) x.
 
 (** * sources *)
 Definition sg (s : node) (i : nat) : Z := nth i (sigs s) 0.
@@ -139,6 +157,7 @@ Definition m3_of (s : node) : Z := if m2_of s >? 25 then 1 else 0.
 
 (** current values of the memo sources, in the order the fetcher reads them *)
 Definition curvals (c : cfg) (s : node) : list Z :=
+  if once c then [] else
   match shape c with
   | O => []
   | 1%nat => [sg s 0 / 2; sg s 1]
@@ -147,12 +166,14 @@ Definition curvals (c : cfg) (s : node) : list Z :=
   end.
 (** the other sources a source pulls before it recomputes itself *)
 Definition pulls (c : cfg) (j : nat) : list nat :=
+  if once c then [] else
   match shape c, j with
   | 2%nat, O => [1%nat]
   | _, _ => []
   end.
 (** what the fetcher reads *)
 Definition inputs (c : cfg) (s : node) : Z * Z :=
+  if once c then (7, 7) else
   match shape c with
   | O => (sg s 0, sg s 1)
   | 1%nat => (sg s 0 / 2, sg s 1)
@@ -223,15 +244,18 @@ Definition create_fut (c : cfg) (s : node) : nat * node :=
   (fid, set_futs (futs s ++ [mkFut (fetchf c (inputs c s)) false true]) (set_cap (inputs c s) s)).
 
 (** * notify_subs *)
-Definition wake_awaiter (a : astate) : astate :=
-  match a with APending w => APending (S w) | x => x end.
+Definition wake_awaiter (g : nat) (a : astate) : astate :=
+  match a with
+  | APending g' w => if (g' =? g)%nat then APending g' (S w) else a   (* a stale waker: nobody listens *)
+  | x => x
+  end.
 
 Definition d_mark_dirty (s : node) : node := d_notify (set_d_dirty true s).
 
 Definition notify_subs (s : node) : node :=
   let s := set_loading false s in
   let s := if d_sub s then d_mark_dirty s else s in
-  let s := set_awaiters (fold_left (fun aws a => upd a wake_awaiter aws) (wakers s) (awaiters s)) s in
+  let s := set_awaiters (fold_left (fun aws ag => upd (fst ag) (wake_awaiter (snd ag)) aws) (wakers s) (awaiters s)) s in
   set_notified (S (notified s)) (set_wakers [] s).
 
 Definition store (r : Z) (s : node) : node :=
@@ -267,6 +291,9 @@ Fixpoint n_loop (c : cfg) (fuel : nat) (s : node) : node :=
                                | None => create_fut c s
                                end in
               let v := S (version s) in
+              (* the Suspense contexts registered since the last load each get a task handle,
+                 held until this load's future has completed *)
+              let s := set_susp_held (susp_reg s) (set_susp_reg 0%nat s) in
               n_loop c f (set_task (TFetch fid v)
                             (set_version v (set_loading true (set_first_run false s))))
             else n_loop c f s
@@ -275,6 +302,7 @@ Fixpoint n_loop (c : cfg) (fuel : nat) (s : node) : node :=
           match nth_error (futs s) fid with
           | Some fu =>
               if f_done fu then
+                let s := set_susp_held 0%nat s in
                 let s := if (version s =? v)%nat then store (f_res fu) s else s in
                 n_loop c f (set_task TIdle s)
               else s
@@ -348,11 +376,12 @@ Inductive event :=
 | Complete (f : nat)
 | PollTask (t : nat)
 | RunAll (picks : list nat)
-| NewAwaiter
+| NewAwaiter (sus : bool)      (* sus: created and polled under an owner providing a SuspenseContext *)
 | PollAwaiter (a : nat).
 
 Definition write_marks (c : cfg) (i : nat) (s : node) : node :=
   let s :=
+    if once c then s else
     match shape c, i with
     | O, O | O, 1%nat => n_mark_dirty s
     | 1%nat, O | 1%nat, 1%nat => n_mark_check s
@@ -375,10 +404,14 @@ Definition complete (f : nat) (s : node) : node :=
   | None => s
   end.
 
-Definition poll_awaiter (a : nat) (s : node) : node :=
+Definition poll_awaiter (c : cfg) (a : nat) (s : node) : node :=
   match nth_error (awaiters s) a with
-  | Some (APending w) =>
-      if loading s then set_wakers (wakers s ++ [a]) s
+  | Some (APending g w) =>
+      (* AsyncDerivedFuture::poll registers the ambient SuspenseContext with the node on every
+         poll; OnceResourceFuture keeps it in a list of its own *)
+      let s := if nth a (aw_sus s) false && negb (once c) then set_susp_reg (S (susp_reg s)) s else s in
+      if loading s then
+        set_awaiters (upd a (fun _ => APending (S g) 0) (awaiters s)) (set_wakers (wakers s ++ [(a, S g)]) s)
       else set_awaiters (upd a (fun _ => match value s with Some v => ADone v | None => APanic end)
                              (awaiters s)) s
   | _ => s
@@ -409,23 +442,34 @@ Definition step (c : cfg) (s : node) (e : event) : node :=
   | WriteSig i v => write_marks c i (set_sigs (upd i (fun _ => v) (sigs s)) s)
   | Refetch =>
       let s := set_refetch_n (refetch_n s + 1) s in
-      match shape c with S (S (S _)) => n_mark_check s | _ => s end
+      if once c then s else
+      match shape c with
+      | S (S (S _)) => n_mark_check s
+      | O => if rf_tracks c then n_mark_dirty s else s
+      | _ => s
+      end
   | ManualSet v => notify_subs (set_legit (v :: legit s) (set_manual true (set_value (Some v) s)))
   | Notify => notify_subs s
   | Complete f => complete f s
   | PollTask t => poll_task c t s
   | RunAll picks => run_all c 64 picks s
-  | NewAwaiter => set_awaiters (awaiters s ++ [APending 0]) s
-  | PollAwaiter a => poll_awaiter a s
+  | NewAwaiter sus => set_aw_sus (aw_sus s ++ [sus]) (set_awaiters (awaiters s ++ [APending 0 0]) s)
+  | PollAwaiter a => poll_awaiter c a s
   end.
 
 (** * construction ([spawn_derived!] up to spawning the task, then the dependent effect) *)
 Definition init (c : cfg) (initial : option Z) : node :=
   let s0 := mkN [0; 0; 0] 0 [] false false true false false 0%nat None true [] TIdle None true []
-                false (0, 0) false false true false false false 0 [] [] [] 0%nat in
+                false (0, 0) false false true false false false 0 [] [] [] 0%nat [] 0%nat 0%nat in
   (* the fetcher is called once: sources computed and subscribed, first future created *)
   let '(fid, s1) := create_fut c (set_seen (curvals c s0) s0) in
   let s2 :=
+    if once c then
+      (* ArcOnceResource::new: the task awaits the one future, stores its value, turns loading
+         off, wakes the wakers and notifies the trigger — the tail of the loop of a node whose
+         only fetch is in flight and which has no sources *)
+      set_task (TFetch fid 1%nat) (set_version 1%nat (set_first_run false s1))
+    else
     match initial with
     | Some v =>
         (* is_ready: the value is known, the future just created is dropped unpolled *)
